@@ -1,54 +1,17 @@
 #!/usr/bin/env python3
-"""Translate constants from the jj source into Lean (run by `check` on every run).
+"""Regenerate lean/JjModel/Generated/*.lean from the Rust sources in /repo (run by ./check first).
 
-Table-driven: each entry is (source file under /repo, regex with one group capturing a Rust
-constant integer expression, Lean name, Lean type, output module).  The captured expression is
-evaluated (integer literals, `<<`, `>>`, `*`, `+`, `-`, parentheses only) and written as
-`def <name> : <type> := <value>` into `lean/JjModel/Generated/<module>.lean`, namespace
-`JjModel.Generated`.  Idempotent (files are rewritten only when their content changes).
-Exit status is non-zero when a source file or pattern has disappeared or an expression is not
-a constant of the supported form — the model would otherwise silently keep a stale value.
+Dispatcher only: every module tools/translate_parts/<name>.py provides
+    run(repo: str, outdir: str, write_if_changed) -> list[str]      # problems (empty = fine)
+and is table-driven, idempotent (writes only on change) and reports a problem when a source pattern
+it is tied to has disappeared.  Exit status is non-zero when any part reports a problem.
 """
-import ast, os, re, sys
+import importlib.util, os, sys
 
-REPO = os.environ.get("JJ_REPO", "/repo")
-ROOT = os.path.join(os.path.dirname(os.path.abspath(__file__)), "..", "lean", "JjModel", "Generated")
+ROOT = os.path.dirname(os.path.abspath(__file__))
+REPO = os.environ.get("JJ_REPO", os.environ.get("JJ_VERIF_REPO", "/repo"))
+OUT = os.path.join(ROOT, "..", "lean", "JjModel", "Generated")
 
-# (file, regex, lean name, lean type, output module)
-TABLE = [
-    ("lib/src/eol.rs", r"const\s+PROBE_LIMIT\s*:\s*u64\s*=\s*([^;]+);", "eolProbeLimit", "Nat", "ConstsEol"),
-]
-
-# Rule texts that several grammars must share verbatim (one Lean model stands for all of them):
-# (rule names, files, Lean name, output module).  The normalised text is written to the module as
-# documentation; the translator fails if the files disagree or a rule is missing.
-SAME_RULES = [
-    (["string_escape", "string_content_char", "string_content", "string_literal",
-      "raw_string_content", "raw_string_literal"],
-     ["lib/src/revset.pest", "lib/src/fileset.pest", "cli/src/template.pest"],
-     "stringLiteralRules", "ConstsDsl"),
-]
-
-_OPS = {ast.LShift: lambda a, b: a << b, ast.RShift: lambda a, b: a >> b, ast.Mult: lambda a, b: a * b,
-        ast.Add: lambda a, b: a + b, ast.Sub: lambda a, b: a - b}
-
-def const_eval(expr):
-    e = re.sub(r"(?<=[0-9a-fA-F])_(?=[0-9a-fA-F])", "", expr.strip())
-    e = re.sub(r"\b((?:0x[0-9a-fA-F]+)|(?:[0-9]+))(?:u8|u16|u32|u64|usize|i32|i64|isize)\b", r"\1", e)
-    def ev(n):
-        if isinstance(n, ast.Expression):
-            return ev(n.body)
-        if isinstance(n, ast.Constant) and isinstance(n.value, int) and not isinstance(n.value, bool):
-            return n.value
-        if isinstance(n, ast.BinOp) and type(n.op) in _OPS:
-            return _OPS[type(n.op)](ev(n.left), ev(n.right))
-        raise ValueError(f"unsupported constant expression: {expr!r}")
-    return ev(ast.parse(e, mode="eval"))
-
-def pest_rule(src, name):
-    """text of pest rule `name` (up to the next rule / comment / blank line), whitespace-normalised"""
-    m = re.search(r"^" + re.escape(name) + r"\s*=.*?(?=^\w+\s*=|^//|^\s*$|\Z)", src, re.S | re.M)
-    return None if m is None else " ".join(m.group(0).split())
 
 def write_if_changed(path, text):
     try:
@@ -61,67 +24,27 @@ def write_if_changed(path, text):
         f.write(text)
     return True
 
+
 def main():
-    errors, modules = [], {}
-    for file, rx, name, ty, module in TABLE:
-        path = os.path.join(REPO, file)
+    parts_dir = os.path.join(ROOT, "translate_parts")
+    problems = []
+    for fn in sorted(os.listdir(parts_dir)) if os.path.isdir(parts_dir) else []:
+        if not fn.endswith(".py") or fn.startswith("_"):
+            continue
+        spec = importlib.util.spec_from_file_location("translate_part_" + fn[:-3], os.path.join(parts_dir, fn))
+        mod = importlib.util.module_from_spec(spec)
         try:
-            src = open(path).read()
-        except OSError as e:
-            errors.append(f"{file}: cannot read ({e})")
-            continue
-        ms = re.findall(rx, src)
-        if len(ms) != 1:
-            errors.append(f"{file}: pattern for {name} matched {len(ms)} times (expected 1): {rx}")
-            continue
-        try:
-            val = const_eval(ms[0])
-        except (ValueError, SyntaxError) as e:
-            errors.append(f"{file}: {name}: {e}")
-            continue
-        if ty == "Nat" and val < 0:
-            errors.append(f"{file}: {name}: negative value {val} for Nat")
-            continue
-        modules.setdefault(module, []).append((file, ms[0].strip(), name, ty, val))
-    texts = {}
-    for rules, files, name, module in SAME_RULES:
-        per_file = {}
-        for file in files:
-            try:
-                src = open(os.path.join(REPO, file)).read()
-            except OSError as e:
-                errors.append(f"{file}: cannot read ({e})")
-                continue
-            got = [pest_rule(src, r) for r in rules]
-            if None in got:
-                errors.append(f"{file}: rule(s) missing: {[r for r, g in zip(rules, got) if g is None]}")
-                continue
-            per_file[file] = "\n".join(got)
-        if len(per_file) == len(files):
-            if len(set(per_file.values())) != 1:
-                errors.append(f"rules {rules} differ between {files}: the shared model {name} no longer stands for all of them")
-            else:
-                texts.setdefault(module, []).append((files, name, per_file[files[0]]))
-    if errors:
-        for e in errors:
-            print("translate: ERROR " + e)
-        return 1
-    for module, entries in sorted(modules.items()):
-        lines = ["-- GENERATED by tools/translate.py from the jj source — do not edit", "namespace JjModel.Generated", ""]
-        for file, expr, name, ty, val in entries:
-            lines += [f"/-- `{file}`: `{expr}` -/", f"def {name} : {ty} := {val}", ""]
-        lines += ["end JjModel.Generated", ""]
-        changed = write_if_changed(os.path.join(ROOT, module + ".lean"), "\n".join(lines))
-        print(f"translate: {module}.lean {'updated' if changed else 'unchanged'} ({len(entries)} constant(s))")
-    for module, entries in sorted(texts.items()):
-        lines = ["-- GENERATED by tools/translate.py from the jj source — do not edit", "namespace JjModel.Generated", ""]
-        for files, name, text in entries:
-            lit = text.replace("\\", "\\\\").replace('"', '\\"').replace("\n", "\\n")
-            lines += [f"/-- rule text shared verbatim by {', '.join('`' + f + '`' for f in files)} -/", f'def {name} : String := "{lit}"', ""]
-        lines += ["end JjModel.Generated", ""]
-        changed = write_if_changed(os.path.join(ROOT, module + ".lean"), "\n".join(lines))
-        print(f"translate: {module}.lean {'updated' if changed else 'unchanged'} ({len(entries)} shared rule group(s))")
-    return 0
+            spec.loader.exec_module(mod)
+            for p in mod.run(REPO, OUT, write_if_changed):
+                problems.append(f"{fn[:-3]}: {p}")
+        except Exception as e:  # a crashed part is a tie failure, not a silent skip
+            problems.append(f"{fn[:-3]}: translator crashed: {e!r}")
+    for p in problems:
+        print("translate: PROBLEM " + p)
+    if not problems:
+        print("translate: ok")
+    sys.exit(1 if problems else 0)
+
 
 if __name__ == "__main__":
-    sys.exit(main())
+    main()
